@@ -4,8 +4,8 @@ cd "$(dirname "$0")/.."
 git -C /repo status --short | grep -q . && { echo "/repo not clean"; exit 2; }
 for d in seeded/*/; do
   id=$(basename $d); p=${id%%-*}
-  if ! git -C /repo apply --check $d/patch.diff 2>/dev/null; then echo "$id: patch no longer applies to HEAD"; continue; fi
-  git -C /repo apply $d/patch.diff
+  if ! git -C /repo apply --check $PWD/$d/patch.diff 2>/dev/null; then echo "$id: patch no longer applies to HEAD"; continue; fi
+  git -C /repo apply $PWD/$d/patch.diff
   out=$(./check $p 2>&1 | grep "^VIOLATION\|^\[C"); rc=$(echo "$out" | grep -c "^VIOLATION")
   git -C /repo checkout -- .
   echo "$id: $rc violation line(s); $(echo "$out" | grep '^VIOLATION' | head -1)"
